@@ -1,4 +1,5 @@
 import AFProofs.Lemmas.FitFS
+import AFProofs.Lemmas.FitPlan
 
 /-!
 # C06 — fits resume, complete once, and survive crashes
@@ -174,6 +175,102 @@ example : safe stLbfgs (fsDone .repaired stLbfgs) = true ∧
 example : ((crashStates FS.init (run .repaired stLbfgs 1 FS.init).steps)[8]?).map
     (fun c => (safe stLbfgs c, completedResult c, c.folder .summary, c.folder .samples)) =
     some (true, none, .full 1, .torn) := by decide
+
+/-! ### the plan read off the source
+
+`AF.FitFS.Plan` walks the call tables that `harness/tables_c06.py` regenerates from the repository on every run
+(`AFModel/Generated/C06.lean`: the ordered calls of `fit`, `pre_fit_output`, `start_resume_fit`, `perform_update`,
+`result_via_completed_fit`, `post_fit_output`, `restore`, `_zip`, `zip_directory` and of the writers of
+`DirectoryPaths` / `Timer`, with the settings guarding each call).  The three structural repairs are no longer a
+hypothesis supplied as data: they are computed from those tables (`source_repairs_in_place`), and the step list
+the theorems above quantify over is the one the source spells out (`plan_is_run`).  A write added to, removed
+from or moved inside one of those functions changes the tables, hence these proof obligations. -/
+
+/-- The source writes the archive beside its name and moves it into place, opens it before deleting the
+folder, and writes every file read back on resume through `open_atomic`. -/
+theorem source_repairs_in_place :
+    Plan.srcZipAtomic = true ∧ Plan.srcRestoreValidates = true ∧ Plan.srcAtomicWrites = true :=
+  ⟨srcZipAtomic_true, srcRestoreValidates_true, srcAtomicWrites_true⟩
+
+/-- Hence the hypothesis of every theorem above reduces, for the configuration the source stands for, to the two
+semantic repairs (resume check, BFGS checkpoint keys) - and to nothing for a nested sampler. -/
+theorem source_cfg_sound (a b : Bool) (h1 : (a || st.fomIsLikelihood) = true)
+    (h2 : (b || st.search != .lbfgs) = true) : (Plan.srcCfg a b).sound st = true := by
+  rw [srcCfg_eq]
+  simp only [Cfg.sound, Bool.true_and]
+  rw [h1, h2]
+  rfl
+
+/-- `perform_update` as the source orders it is the model's `update`, for every setting and content name. -/
+theorem plan_update_conforms (a b : Bool) (st : Settings) (g : Nat) :
+    Plan.updateSteps st g = update (Plan.srcCfg a b) st g := updateSteps_eq a b st g
+
+/-- `start_resume_fit` as the source orders it (timer, sampler, final update, marker *last*) is the model's
+`timerStart` followed by `sampling`, for every number of intermediate updates. -/
+theorem plan_start_resume_conforms (a b : Bool) (st : Settings) (n g0 : Nat) (fo : Folder) :
+    Plan.startResumeSteps st n g0 fo =
+      (timerStart (Plan.srcCfg a b) fo).1 ++ sampling (Plan.srcCfg a b) st n g0 :=
+  startResumeSteps_eq a b st n g0 fo
+
+/-- `restore` as the source orders it is the model's. -/
+theorem plan_restore_conforms (a b : Bool) (st : Settings) (fs : FS) (h : fs.zip ≠ .torn) :
+    restore (Plan.srcCfg a b) fs = (Plan.restoreSteps st fs, none) := restoreSteps_eq a b st fs h
+
+/-- `result_via_completed_fit` neither samples nor writes, whatever the output settings. -/
+theorem plan_completed_branch_reads_only (st : Settings) : Plan.completedFitSteps st = [] :=
+  completedFitSteps_nil st
+
+/-- **Refinement**: from every safe state, for every setting and number of updates, the step list read off
+the source is the step list of `run` - the subject of every theorem of this file. -/
+theorem plan_is_run (a b : Bool) (n : Nat) {fs : FS} (h : (Plan.srcCfg a b).sound st = true)
+    (hs : safe st fs = true) :
+    Plan.planSteps st n fs = (run (Plan.srcCfg a b) st n fs).steps :=
+  planSteps_eq_run a b n (sound_iff.1 h) hs
+
+/-- Crash safety stated on the source-derived steps: a kill between any two of them, or inside any write
+they do not make atomically, leaves a safe state. -/
+theorem plan_crash_states_safe (a b : Bool) (n : Nat) {fs : FS} (h : (Plan.srcCfg a b).sound st = true)
+    (hs : safe st fs = true) :
+    ∀ c ∈ crashStates fs (Plan.planSteps st n fs), safe st c = true := by
+  rw [plan_is_run a b n h hs]
+  exact crash_states_safe n h hs
+
+/-- …and keeps a completed result held before. -/
+theorem plan_completed_never_lost (a b : Bool) (n : Nat) {fs : FS} {r : View}
+    (h : (Plan.srcCfg a b).sound st = true) (hs : safe st fs = true) (hr : completedResult fs = some r) :
+    ∀ c ∈ crashStates fs (Plan.planSteps st n fs), completedResult c = some r := by
+  rw [plan_is_run a b n h hs]
+  exact completed_never_lost n h hs hr
+
+/-- The source-derived steps of a call on a completed fit contain no sampling; on any other safe state they do,
+and in both cases they end with a completed result held. -/
+theorem plan_completes_once (a b : Bool) (n : Nat) {fs : FS} (h : (Plan.srcCfg a b).sound st = true)
+    (hs : safe st fs = true) :
+    (sampled (Plan.planSteps st n fs) = (completedResult fs).isNone) ∧
+    (completedResult (applyAll fs (Plan.planSteps st n fs))).isSome = true := by
+  rw [plan_is_run a b n h hs]
+  obtain ⟨r, -, h2, -⟩ := run_completes (cfg := Plan.srcCfg a b) n h hs
+  refine ⟨?_, by simpa [Run.final] using congrArg Option.isSome h2⟩
+  cases hc : completedResult fs with
+  | none => simpa using incomplete_is_sampled n h hs hc
+  | some r0 => simpa using (rerun_complete_noop n h hs hc).2.1
+
+/-- Over histories: whatever sequence of runs and kills came before, the steps the source spells out for the next
+call are safe to be killed in, and end complete. -/
+theorem plan_crash_safe (a b : Bool) (h : (Plan.srcCfg a b).sound st = true) (evs : List Event) (n : Nat) :
+    let fs := exec (Plan.srcCfg a b) st FS.init evs
+    (∀ c ∈ crashStates fs (Plan.planSteps st n fs), safe st c = true) ∧
+    (completedResult (applyAll fs (Plan.planSteps st n fs))).isSome = true := by
+  have hs := history_safe h evs FS.init init_safe
+  exact ⟨plan_crash_states_safe a b n h hs, (plan_completes_once a b n h hs).2⟩
+
+/-- the hypotheses are met with no assumption at all for a nested sampler, and the plan is not trivial:
+a fresh LBFGS fit with one intermediate update has as many steps as the model's `run`, samples, and ends complete -/
+example : (Plan.srcCfg false false).sound ⟨true, true, false, .dynesty, true⟩ = true := by decide
+
+example : (Plan.planSteps stLbfgs 1 FS.init).length = (run Cfg.repaired stLbfgs 1 FS.init).steps.length ∧
+    sampled (Plan.planSteps stLbfgs 1 FS.init) = true ∧
+    20 < (Plan.planSteps stLbfgs 1 FS.init).length := by decide
 
 def anyState (l : List FS) (p : FS → Bool) : Bool := l.any p
 
